@@ -7,17 +7,28 @@ Definition f_mode (h : handle) : N := match h_mode_ov h with Some m => m | None 
 Definition f_mtime (h : handle) : mtime := match h_mtime_ov h with Some m => m | None => h_mtime h end.
 
 Definition mk_file (p : str) (r : rec) : handle :=
-  mkH p (r_cell r) (r_mode r) (r_mtime r) None None 0%Z 0 WRO false false false None false.
+  mkH p (r_cell r) (r_mode r) (r_mtime r) None None 0%Z 0 WRO false false false None false None.
 
 Definition set_loaded (h : handle) (bad : bool) : handle :=
   mkH (h_path h) (h_cell h) (h_mode h) (h_mtime h) (h_mode_ov h) (h_mtime_ov h) (h_off h) (h_flag h)
-      (h_wrap h) true bad (h_fresh h) (h_names h) (h_closed h).
+      (h_wrap h) true bad (h_fresh h) (h_names h) (h_closed h) (h_size h).
 
 (* fileData.Data(): memoised; the first evaluation on a record from the store is a store call *)
 Definition f_data (st : kv) (h : handle) : kv * handle * bool :=
   if h_loaded h then (st, h, negb (h_data_err h))
   else if h_fresh h then (st, set_loaded h false, true)
   else let '(st1, bad) := sdata st in (st1, set_loaded h bad, negb bad).
+
+(* runOnceFileRecord.Size(): the record's Size() is asked once and remembered; once the data has been
+   loaded successfully the live length of the blob is reported instead *)
+Definition with_size (h : handle) (n : nat) : handle :=
+  mkH (h_path h) (h_cell h) (h_mode h) (h_mtime h) (h_mode_ov h) (h_mtime_ov h) (h_off h) (h_flag h)
+      (h_wrap h) (h_loaded h) (h_data_err h) (h_fresh h) (h_names h) (h_closed h) (Some n).
+
+Definition f_size (st : kv) (h : handle) : handle * nat :=
+  let live := length (cell st (h_cell h)) in
+  let memo := match h_size h with Some n => n | None => if h_fresh h then O else live end in
+  (with_size h memo, if h_loaded h && negb (h_data_err h) then live else memo).
 
 (* notDirErr: a not-exist error becomes ErrNotDir when the nearest existing ancestor is not a directory;
    one Get (its own transaction) per ancestor looked at *)
@@ -71,7 +82,7 @@ Definition save (st : kv) (h : handle) : kv * handle * option err :=
 (* newFile / newDir: the record's blob is allocated by the FS *)
 Definition new_file (st : kv) (p : str) (flag : N) (mode : N) : kv * handle :=
   let '(st1, c) := alloc_cell st [] in
-  (st1, mkH p c mode Clock None None 0%Z flag WRO false false true None false).
+  (st1, mkH p c mode Clock None None 0%Z flag WRO false false true None false None).
 
 Definition kv_stat (st : kv) (p : str) : kv * (handle + err) :=
   let '(st1, r) := get_file st p in
@@ -162,7 +173,7 @@ Definition resize (d : list N) (n : nat) : list N :=
 
 Definition stamp_clock (h : handle) : handle :=
   mkH (h_path h) (h_cell h) (h_mode h) (h_mtime h) (h_mode_ov h) (Some Clock) (h_off h) (h_flag h)
-      (h_wrap h) (h_loaded h) (h_data_err h) (h_fresh h) (h_names h) (h_closed h).
+      (h_wrap h) (h_loaded h) (h_data_err h) (h_fresh h) (h_names h) (h_closed h) (h_size h).
 
 Definition file_truncate (st : kv) (h : handle) (size : Z) : kv * handle * option err :=
   if h_closed h then (st, h, Some (PathErr (h_path h) ECLOSED))
@@ -170,7 +181,7 @@ Definition file_truncate (st : kv) (h : handle) (size : Z) : kv * handle * optio
   else
     (* currentSize: loads the data *)
     let '(st1, h1, ok) := f_data st h in
-    let len := Z.of_nat (length (cell st1 (h_cell h1))) in
+    let '(h1, len) := (let '(h', n) := f_size st1 h1 in (h', Z.of_nat n)) in
     if (size <? 0)%Z then (st1, h1, Some (PathErr (h_path h) EINVAL))
     else if (size =? len)%Z then (st1, h1, None)
     else if negb ok then (st1, h1, Some (PathErr (h_path h) EOTHER))
@@ -182,7 +193,7 @@ Definition file_truncate (st : kv) (h : handle) (size : Z) : kv * handle * optio
 
 Definition with_open (h : handle) (flag : N) (w : wrapper) : handle :=
   mkH (h_path h) (h_cell h) (h_mode h) (h_mtime h) (h_mode_ov h) (h_mtime_ov h) (h_off h) flag
-      w (h_loaded h) (h_data_err h) (h_fresh h) (h_names h) (h_closed h).
+      w (h_loaded h) (h_data_err h) (h_fresh h) (h_names h) (h_closed h) (h_size h).
 
 Definition pick_wrapper (flag : N) : wrapper :=
   if has_flag flag F_WRONLY then WWO else if has_flag flag F_RDWR then WRW else WRO.
@@ -236,7 +247,7 @@ Definition kv_openfile (st : kv) (p : str) (flag perm : N) : kv * (handle + err)
 (* fileData.ReadDirNames(): memoised *)
 Definition set_names (h : handle) (n : list str + err) : handle :=
   mkH (h_path h) (h_cell h) (h_mode h) (h_mtime h) (h_mode_ov h) (h_mtime_ov h) (h_off h) (h_flag h)
-      (h_wrap h) (h_loaded h) (h_data_err h) (h_fresh h) (Some n) (h_closed h).
+      (h_wrap h) (h_loaded h) (h_data_err h) (h_fresh h) (Some n) (h_closed h) (h_size h).
 
 Definition f_names (st : kv) (h : handle) : kv * handle * (list str + err) :=
   match h_names h with
@@ -348,10 +359,10 @@ Fixpoint kv_rename (fuel : nat) (st : kv) (o n : str) : kv * option err :=
 
 Definition with_mode_ov (h : handle) (m : N) : handle :=
   mkH (h_path h) (h_cell h) (h_mode h) (h_mtime h) (Some m) (h_mtime_ov h) (h_off h) (h_flag h)
-      (h_wrap h) (h_loaded h) (h_data_err h) (h_fresh h) (h_names h) (h_closed h).
+      (h_wrap h) (h_loaded h) (h_data_err h) (h_fresh h) (h_names h) (h_closed h) (h_size h).
 Definition with_mtime_ov (h : handle) (m : mtime) : handle :=
   mkH (h_path h) (h_cell h) (h_mode h) (h_mtime h) (h_mode_ov h) (Some m) (h_off h) (h_flag h)
-      (h_wrap h) (h_loaded h) (h_data_err h) (h_fresh h) (h_names h) (h_closed h).
+      (h_wrap h) (h_loaded h) (h_data_err h) (h_fresh h) (h_names h) (h_closed h) (h_size h).
 
 Definition chmod_mode (old m : N) : N :=
   N.lor (N.ldiff old chmod_bits) (N.land m chmod_bits).
